@@ -200,6 +200,8 @@ def make_doc(ctx, idx):
     names = gs.PLAIN_NAMES + gs.RENAMING_NAMES
     if idx % 4:
         names = [n for n in names if n not in ("é", "1st")]
+    if idx % 5 == 2:
+        names = names + gs.KEYWORD_NAMES
     gen = gen_docs.DocGen(rng, serial, names=names, hostile_descriptions=idx % 3 == 0,
                           f22_titles=0.3 if idx % 10 == 9 else 0.0, untitled=0.0 if idx % 2 else 0.5)
     doc = gen.doc()
@@ -219,6 +221,8 @@ def one_doc(ctx, sut, fpm, idx, given=None, generated=False):
     if idx % 4:
         # property names whose auto-title would itself trigger F22 are kept to a quarter of the documents
         names = [n for n in names if n not in ("é", "1st")]
+    if idx % 5 == 2:
+        names = names + gs.KEYWORD_NAMES
     gen = gen_docs.DocGen(rng, serial, names=names, hostile_descriptions=hostile,
                           f22_titles=0.3 if f22_mode else 0.0, untitled=0.0 if idx % 2 else 0.5)
     doc = given or gen.doc()
